@@ -35,4 +35,9 @@ CLAIMS = {
         "note": "Trusted: numpy's choice semantics (distinct elements without replacement; weight-0 elements never drawn). Not decided: selection frequencies; move tables edited behind add_move's back (from_dict, direct attribute edits).",
         "technique": "CFG path enumeration + dataflow slicing/value numbering + bounded exhaustive predicate equivalence",
     },
+    "C17": {
+        "text": "Bounded-exhaustive decision: the __add__/__mul__/__rmul__ bodies and the __init__ chains that assign composite_move_type are interpreted by a checker-owned interpreter over model objects (instances, composites, class values, generic aliases, metaclass), and EVERY expression tree over + and *n with every parenthesisation up to 4 leaves (quick, ~10^4 trees) / 5 leaves and two multiplications (thorough, ~2·10^5 trees) over five move kinds and three operation kinds is compared with the specification (elements in order with multiplicity; specialised composite iff all leaves of one displacement/exchange kind); invalid multipliers must raise; CompositeMove.__call__ must not short-circuit.",
+        "note": "Trusted: typing caches parameterised generic aliases (same parameters, same object) — either way both branches then build the plain composite. The reflected spelling n*x is only checked for classes that define __rmul__ (the property speaks of a*n). Exhaustive within the stated tree bound only.",
+        "technique": "finite abstract interpretation of dispatch code over kinds (checker-owned interpreter) + exhaustive bounded tree enumeration",
+    },
 }
